@@ -170,6 +170,7 @@ type fixture struct {
 	slack        int            // descriptor excess over the baseline explained by bounded pools (plateaus seen)
 	leakedConns  map[string]int // connection-table trouble already reported for the current child
 	baseConns    map[string]int // connection counts of the settled warm-up state
+	deaths       map[string]int // server deaths per input class (an established crash is not repeated for ever)
 }
 
 func runFixture(r *lib.Run, p plan, n int) {
@@ -412,6 +413,10 @@ func (fx *fixture) reportDeath(ep, gen, what string, extra map[string]any) {
 		return
 	}
 	fx.deathSeen = true
+	if fx.deaths == nil {
+		fx.deaths = map[string]int{}
+	}
+	fx.deaths[gen]++
 	fx.child.WaitExit(5 * time.Second)
 	if extra == nil {
 		extra = map[string]any{}
@@ -458,6 +463,11 @@ func (fx *fixture) scanLog() (string, string) {
 }
 
 func (fx *fixture) exec(o *op) result {
+	if !o.setup && fx.deaths[o.keyClass()] >= 3 {
+		// this input class has killed the server three times in this run: established, keep exploring the rest
+		fx.r.Count("skipped.crash-established." + o.keyClass())
+		return result{status: "skipped"}
+	}
 	if o.abortOp || devFDCheckAll {
 		fx.cacheFDsBefore() // descriptors an earlier request left behind are not this request's
 	}
